@@ -16,9 +16,10 @@ func init() {
 		run: func(c *Ctx) {
 			genRules(c, "G1", "G2", "G3", "G4")
 			ruleG6(c)
+			ruleG7(c)
 			ruleV6(c)
 		},
-		explanation: "Decides the order-independence and completeness structure of the OCI spec generator: in every Adjust* function no removal-marked delete of a piece of spec state can run after an insert into the same state (so a set wins over a removal of the same key whatever the map or list order), a keyed table built from an adjustment list consults the marker when inserting, no map range produces order-dependent output; Generator.Adjust passes every field of the adjustment to a function and returns every error; every listed resource field, cgroups path, OOM score, args, rlimits, the six hook lists and CDI devices are fed to a spec setter under the field's own presence test; mounts are re-sorted after the last added mount on every successful path and the comparator orders by path depth then destination; the env separator agrees across the four places that split or join it.",
+		explanation: "Decides the order-independence and completeness structure of the OCI spec generator: in every Adjust* function no removal-marked delete of a piece of spec state can run after an insert into the same state (so a set wins over a removal of the same key whatever the map or list order), a keyed table built from an adjustment list consults the marker when inserting, no map range produces order-dependent output; Generator.Adjust passes every field of the adjustment to a function and returns every error; every listed resource field, cgroups path, OOM score, args, rlimits, the six hook lists and CDI devices are fed to a spec setter under the field's own presence test; mounts are re-sorted after the last added mount on every successful path and the comparator orders by path depth then destination; the env separator agrees across the four places that split or join it. A keyed setter of a list inside a range over a map counts as order-dependent; a pointer passed to a setter in a loop is never the address of a variable declared outside the loop.",
 		notDecided: []string{
 			"that everything else in the spec is left untouched",
 			"the comparator as an order relation on values",
@@ -335,7 +336,7 @@ func ruleG1(c *Ctx) {
 						continue
 					}
 					g := m.callee(gc.call.Common())
-					if g != nil && appendsOutput(m, g) && derivedFromRange(gc.call, rg) {
+					if g != nil && appendsToList(m, g, 0) && derivedFromRange(gc.call, rg) {
 						bad = fmt.Sprintf("%s appends to an ordered list inside a range over a map: the resulting order differs from run to run", shortCallee(gc.call.Common()))
 					}
 				}
@@ -346,6 +347,7 @@ func ruleG1(c *Ctx) {
 }
 
 // appendsOutput: the generator method appends to a slice of the spec without keyed replacement.
+// appendsOutput: g appends to a list without looking for an existing entry first (an unkeyed append).
 func appendsOutput(m *Module, g *ssa.Function) bool {
 	if g.Blocks == nil {
 		return false
@@ -368,6 +370,30 @@ func appendsOutput(m *Module, g *ssa.Function) bool {
 		}
 	}
 	return hasAppend && !hasKeyed
+}
+
+// appendsToList: g (or a helper of the same type it calls) appends to a list at all. A keyed setter of a list
+// (replace in place, else append) still appends the keys that are new, in the order it is called: inside a range
+// over a map that order differs from run to run.
+func appendsToList(m *Module, g *ssa.Function, depth int) bool {
+	if g.Blocks == nil || depth > 2 {
+		return false
+	}
+	for _, b := range g.Blocks {
+		for _, in := range b.Instrs {
+			switch x := in.(type) {
+			case *ssa.Call:
+				if h := m.callee(x.Common()); h != nil && h != g && recvNamed(h) != nil && recvNamed(h) == recvNamed(g) && appendsToList(m, h, depth+1) {
+					return true
+				}
+			case *ssa.Store:
+				if _, ok := isBuiltinCall(x.Val, "append"); ok {
+					return true
+				}
+			}
+		}
+	}
+	return false
 }
 
 func derivedFromRange(ci ssa.CallInstruction, rg *ssa.Range) bool {
@@ -1104,5 +1130,38 @@ func ruleG6(c *Ctx) {
 			}
 		}
 		c.ok("G6", funcKey(f), f.Pos(), bad == "", funcKey(f)+" keeps the order of the lists it is given", bad+": the combined adjustment is applied in a different order than the plugins' individual adjustments would be (devices, CDI devices, hooks, env and args are order-sensitive)")
+	}
+}
+
+// ---------------------------------------------------------------- G7 no variable shared between iterations
+
+// ruleG7: a pointer handed to a spec setter inside a loop does not point to a variable that lives across iterations.
+func ruleG7(c *Ctx) {
+	m := c.M
+	c.rule("G7", "no aliasing across iterations: a pointer passed to a spec setter inside a loop of an Adjust*/Inject* function points into the element being applied or to a variable of that iteration, never to a variable declared outside the loop (the setters keep the pointer, so every entry added by the loop would end up showing the last element's value)", 0)
+	n := 0
+	for _, f := range adjustFamily(m) {
+		for _, ci := range calls(f) {
+			g := m.callee(ci.Common())
+			if g == nil || !isGeneratorMethod(g) || !inLoop(ci.Block()) {
+				continue
+			}
+			hdr := loopHeader(ci.Block())
+			for i, a := range ci.Common().Args {
+				if _, isPtr := a.Type().Underlying().(*types.Pointer); !isPtr || i == 0 {
+					continue
+				}
+				n++
+				al, isAlloc := a.(*ssa.Alloc)
+				if !isAlloc {
+					c.add("G7", fmt.Sprintf("%s/%s/arg%d#%d", f.Name(), g.Name(), i, n), ci.Pos(), Discharged, "the pointer passed points into the element or to a fresh object", "")
+					continue
+				}
+				// the variable is created inside the loop (one per iteration)
+				inside := hdr != nil && hdr.Dominates(al.Block()) && canReach(al.Block(), hdr) && al.Block() != hdr
+				c.ok("G7", fmt.Sprintf("%s/%s/arg%d#%d", f.Name(), g.Name(), i, n), ci.Pos(), inside, "the variable whose address is passed is created anew in every iteration",
+					"the address of a variable declared outside the loop is passed to "+g.Name()+" on every iteration: the setter keeps the pointer, so all entries added by this loop share one variable and show the values of the last element")
+			}
+		}
 	}
 }
